@@ -179,6 +179,9 @@ struct EmitContext {
     /// Unqualified flow/stitch target names mapped to their absolute path
     /// when the name is unique across the story.
     unqualified_flow_targets: BTreeMap<String, String>,
+    /// The constants of the story (already resolved among themselves), for the text
+    /// of choices, which is only taken apart into content and logic when it is emitted.
+    consts: std::collections::HashMap<String, crate::ast::Expression>,
 }
 
 fn register_unqualified_flow_target(
@@ -498,6 +501,7 @@ impl EmitContext {
             qualified_choice_labels,
             function_ref_param_positions,
             unqualified_flow_targets,
+            consts: story.consts.clone(),
         }
     }
 
